@@ -537,6 +537,14 @@ pub fn c09_parts(quick: bool) -> (Vec<EwSpec>, Vec<Scenario>) {
         env.dev_start = 4; env.fates = DF_BASIC; env.deltas = &[100, 0, 2000]; env.fair_delta = 500;
         scs.push(sc(&format!("C09.staggered.{}", if who == 0 { "client" } else { "server" }), &cfg, script, env, d, EO_C09 | EO_C08));
     }
+    // disconnect right after Connect: the handshake's own datagrams (the client's ACK above all) are among those that can be lost
+    for (sname, act) in [("client-now", Act::CDisconnectNow(0)), ("client", Act::CDisconnect(0))] {
+        let cfg = EwCfg::new(1);
+        let script = vec![at(0, Act::Connect(0)), after_c(0, 1, Act::CSend(0, 0, Reliable, 100)), after_c(0, 1, act)];
+        let mut env = EwEnv::basic(if quick { 6 } else { 9 }, 140);
+        env.dev_start = 0; env.fates = DF_BASIC; env.deltas = &[100, 2000]; env.fair_delta = 500;
+        scs.push(sc(&format!("C09.right-after-connect.{}", sname), &cfg, script, env, d, EO_C09 | EO_C08));
+    }
     // a warm connection (20 kB transferred, constant 100 ms cadence): the last packet's three frames leave in one flush
     for who in 0..2 {
         let cfg = EwCfg::new(1);
